@@ -147,6 +147,15 @@ M["M10_seeded_mailbox_failadd_drops_sourceref"] = [
      "\t\tcircuit:        pkt.circuit,\n\t\thasSource:      true,\n"),
 ]
 
+# Independently seeded regression (/verif/seeded/C08b): CloseCircuit keeps its
+# in-memory "closing" marker under the OUTGOING key; FailCircuit/DeleteCircuits
+# use the incoming key, so the marker is never cleared and later collides with
+# the incoming key of a reverse-direction add on the same channel.
+M["M11_seeded_closecircuit_marker_under_outkey"] = [
+    (CMAP, "\t_, ok = cm.closed[circuit.Incoming]\n\tif ok {\n\t\treturn nil, ErrCircuitClosing\n\t}\n\n\tcm.closed[circuit.Incoming] = struct{}{}\n",
+     "\t_, ok = cm.closed[outKey]\n\tif ok {\n\t\treturn nil, ErrCircuitClosing\n\t}\n\n\tcm.closed[outKey] = struct{}{}\n"),
+]
+
 
 def build(name):
     if isinstance(M[name], str):
